@@ -24,7 +24,8 @@ MANIFEST = {
             "total order by descending value), bits (store iff white-space separated declared names without repetition, "
             "canonical string = names in position order with single spaces, idempotent, equal bitmaps iff equal canonical "
             "strings, memcmp order), binary (decode(encode d) = d, RFC 4648 texts accepted and canonical, length counted on "
-            "the octets, idempotent; equality iff canonical REFUTED on non-zero pad bits), string length (counted in "
+            "the octets, idempotent; canonical string = RFC 4648 text of the octets and equality iff equal canonical strings for "
+            "every accepted text since c0ee3aa, with the former pad-bits counter-example as regression), string length (counted in "
             "characters: utf8len = number of ly_checkutf8 steps) and union (first accepting member, canonical string "
             "idempotent, equality iff canonical within one member, REFUTED across members, sort = strict total order). "
             "Tie: differential runs of the extracted models against lyd_value_validate/lyd_new_term/lyd_value_compare/"
